@@ -988,6 +988,12 @@ func (b *Broker) sendAndReceiveSASLHandshake(saslType SASLMechanism, version int
 	}
 
 	length := binary.BigEndian.Uint32(header[:4])
+	if length < 4 || length > uint32(MaxResponseSize) {
+		b.addRequestInFlightMetrics(-1)
+		err = PacketDecodingError{fmt.Sprintf("SASL handshake response of length %d too large or too small", length)}
+		Logger.Printf("Failed to read SASL handshake header : %s\n", err.Error())
+		return err
+	}
 	payload := make([]byte, length-4)
 	n, err := b.readFull(payload)
 	if err != nil {
